@@ -207,6 +207,26 @@ func DrawCfg(r *sim.RNG) *Cfg {
 		}
 		c.Seats[i].Bankroll = b
 	}
+	// a rare but legal layout: the blinds are busted by the ante, so nothing
+	// is posted and the first betting round opens with no wager to match
+	if n >= 3 && r.Chance(0.05) {
+		if c.Ante == 0 {
+			c.Ante = 1 + r.Int63n(unit+1)
+		}
+		if bb := c.find("bb"); bb >= 0 {
+			c.Seats[bb].Bankroll = 1 + r.Int63n(c.Ante)
+		}
+		if sb := c.find("sb"); sb >= 0 {
+			if r.Chance(0.5) {
+				c.Seats[sb].Positions = []string{}
+			} else {
+				c.Seats[sb].Bankroll = 1 + r.Int63n(c.Ante)
+			}
+		}
+		if c.DealerBlind > 0 && c.BB > 0 {
+			c.DealerBlind = 0
+		}
+	}
 	c.Deck, c.Rig = drawDeck(r, c)
 	c.ViaBackend = r.Chance(0.25)
 	c.Twin = r.Chance(0.12)
